@@ -298,8 +298,23 @@ def h_failure(kind):
         m1 = p.init_req()
         m2 = p.send('B', m1)
         m3 = p.send('A', m2)
+        if kind == 'peer_silent_after_keys':
+            # the initiator has just derived all IKE keys; its IKE_AUTH request is never answered: retransmissions, then it gives up
+            for _ in range(8):
+                world.ENV.now = world.ENV.now + 30
+                p.A.call(p.a.check_retransmission_timer)
+            m3 = None
         m4 = p.send('B', m3) if m3 is not None else None
         r = p.send('A', m4) if m4 is not None else None
+        if kind == 'peer_silent_established' and p.a.state.name == 'ESTABLISHED':
+            # right after a CHILD_SA rekey (fresh keys in the recent history of the IKE_SA) the peer goes silent: probe, retransmissions, give-up
+            q = p.A.call(p.a.process_expire, p.a.child_sas[0].inbound_spi, False)
+            c01.pump(p.a, p.A, p.b, p.B, q)
+            world.ENV.now = p.a.start_dpd_at + 3600
+            p.A.call(p.a.check_dead_peer_detection_timer)
+            for _ in range(8):
+                world.ENV.now = world.ENV.now + 30
+                p.A.call(p.a.check_retransmission_timer)
         if kind == 'ts_unacceptable' and p.a.state.name == 'ESTABLISHED':
             TS = m.TrafficSelector
             from ipaddress import ip_network
@@ -389,8 +404,89 @@ def h_cli(k):
     return ['cli', 'started' if started else outcome, bool(verbose)]
 
 
+CLI_PSKS = ('hunter2-secret', '0x1234zz5678', '0xdeadbeefcafe', '0Xnot-hex', 'base64:QUJDREVG', ' psk with spaces ', '1234567890', '@/etc/ipsec.secrets', '{psk}', '%s%s%n')
+CLI_ERRORS = ('none', 'bad_my_addr', 'not_listening', 'unknown_alg', 'bad_lifetime', 'bad_protect', 'missing_peer_auth')
+
+
+def h_cli_config():
+    """pyikev2.py started WITHOUT --verbose on a configuration file whose pre-shared keys are arbitrary members of CLI_PSKS and which contains an
+    arbitrary one of CLI_ERRORS: whatever it writes (log records of any level, stdout, stderr) never contains a configured pre-shared key"""
+    import io
+    import logging as _logging
+    import os
+    import runpy
+    import sys
+    import tempfile
+    import yaml
+    from symx import core
+    eng = core.engine()
+    pick = lambda name, opts: opts[eng.concretize(eng.sym_int(name, 0, len(opts) - 1), 0, len(opts) - 1)] if not isinstance(eng, core.ReplayEngine) \
+        else opts[eng.sym_int(name, 0, len(opts) - 1)]
+    psk_a, psk_b, err = pick('my_psk', CLI_PSKS), pick('peer_psk', CLI_PSKS), pick('error', CLI_ERRORS)
+    conn = {'my_addr': '192.168.0.2', 'peer_addr': '192.168.0.1', 'my_auth': {'id': 'a@example.org', 'psk': psk_a}, 'peer_auth': {'id': 'b@example.org', 'psk': psk_b},
+            'encr': ['aes256'], 'protect': [{'ip_proto': 'tcp', 'lifetime': 60}]}
+    if err == 'bad_my_addr':
+        conn['my_addr'] = 'not an address !'
+    elif err == 'not_listening':
+        conn['my_addr'] = '192.168.0.77'
+    elif err == 'unknown_alg':
+        conn['encr'] = ['rot13']
+    elif err == 'bad_lifetime':
+        conn['protect'][0]['lifetime'] = 'soon'
+    elif err == 'bad_protect':
+        conn['protect'] = 'everything'
+    elif err == 'missing_peer_auth':
+        del conn['peer_auth']['id']
+        conn['peer_auth']['pubkey'] = 'garbage'
+    fd, path = tempfile.mkstemp(suffix='.yaml', dir='/var/tmp')
+    os.write(fd, yaml.safe_dump({'conn': conn}).encode())
+    os.close(fd)
+    records, started = [], []
+    ic = MODS['ikesacontroller']
+
+    class StubController:
+        def __init__(self, *a, **kw):
+            pass
+
+        def main_loop(self):
+            started.append(True)
+
+        def close(self):
+            pass
+    names = ('debug', 'info', 'warning', 'error', 'critical', 'exception')
+    saved = (sys.argv, _logging.basicConfig, ic.IkeSaController, sys.stderr, sys.stdout, getattr(_logging, 'indent', None), {n: getattr(_logging, n) for n in names})
+    _logging.basicConfig = lambda **kw: None
+    for n in names:
+        setattr(_logging, n, (lambda lvl: (lambda msg, *a, **k: records.append((lvl, str(msg) % a if a else str(msg)))))(n))
+    ic.IkeSaController = StubController
+    sys.argv = ['pyikev2.py', '-c', path, '-i', '192.168.0.2']
+    out = io.StringIO()
+    sys.stderr = sys.stdout = out
+    try:
+        runpy.run_path(os.path.join(common.REPO, 'pyikev2.py'), run_name='__main__')
+    except SystemExit:
+        pass
+    except Exception as ex:      # noqa
+        records.append(('traceback', f'{type(ex).__name__}: {ex}'))
+    finally:
+        sys.argv, _logging.basicConfig, ic.IkeSaController, sys.stderr, sys.stdout = saved[:5]
+        _logging.indent = saved[5]
+        for n, f in saved[6].items():
+            setattr(_logging, n, f)
+        os.unlink(path)
+    text = out.getvalue() + '\n'.join(t for _, t in records)
+    for who, psk in (('my_auth', psk_a), ('peer_auth', psk_b)):
+        if psk in text or psk.strip() in text:
+            lvl = next((l for l, t in records if psk in t), 'stdout/stderr')
+            return {'class': ['cli_config'], 'violation': f'configuration error {err!r}: the pre-shared key of {who} ({psk!r}) appears in the output ({lvl}) of a daemon '
+                                                          f'started without --verbose'}
+    return ['cli_config', 'started' if started else 'refused']
+
+
 def build_instances(tier):
     inst = []
+    inst.append(Instance('configuration errors never print a pre-shared key', h_cli_config, (), native=common.native_of(h_cli_config), engine_kw={'max_ticks': 10 ** 7},
+                         must_reach=[('started', lambda o: o == ['cli_config', 'started']), ('refused', lambda o: o == ['cli_config', 'refused'])]))
     for k in ((0, 1, 2) if tier == 'quick' else (0, 1, 2, 3)):
         inst.append(Instance(f'command line with {k} extra options', h_cli, (k,), native=common.native_of(h_cli), engine_kw={'max_ticks': 10 ** 7},
                              must_reach=[('started', lambda o: o[:2] == ['cli', 'started'])]))
@@ -400,7 +496,7 @@ def build_instances(tier):
         inst.append(Instance(f'success {suite} {sc}', h_success, (suite, sc), engine_kw={'max_ticks': 10 ** 7},
                              must_reach=[('records', lambda o: o[:2] == ['log', 'success'] and o[2] > 5)]))
     for kind in ('wrong_psk_initiator', 'wrong_psk_responder', 'wrong_method', 'no_proposal', 'ts_unacceptable', 'kernel_refusal', 'kernel_refusal_netlink', 'garbage',
-                 'internal_error_install_responder', 'internal_error_install_initiator'):
+                 'internal_error_install_responder', 'internal_error_install_initiator', 'peer_silent_after_keys', 'peer_silent_established'):
         inst.append(Instance(f'failure {kind}', h_failure, (kind,), engine_kw={'max_ticks': 10 ** 7},
                              must_reach=[('records', lambda o: o[0] == 'log' and o[-1] > 3)]))
     return inst
